@@ -379,11 +379,21 @@ def expand_delegation(p, fi, depth=2):
         call = body[0].value
         if not isinstance(call.func, (ast.Name, ast.Attribute)):
             break
-        r = p.resolve_expr(mod, call.func)
-        if r is None or r[0] != "func":
-            break
-        g = r[1]
+        g = None
+        is_self_method = False
+        if isinstance(call.func, ast.Attribute) and isinstance(call.func.value, ast.Name) and call.func.value.id == "self" \
+                and getattr(fi, "cls", None) is not None:
+            ci_ = p.classes.get(fi.cls) if isinstance(fi.cls, str) else fi.cls
+            g = p.find_method(ci_, call.func.attr) if ci_ is not None else None
+            is_self_method = g is not None
+        if g is None:
+            r = p.resolve_expr(mod, call.func)
+            if r is None or r[0] != "func":
+                break
+            g = r[1]
         gparams = [a.arg for a in g.node.args.posonlyargs + g.node.args.args]
+        if is_self_method and gparams and gparams[0] == "self":
+            gparams = gparams[1:]
         bind = {}
         ok = True
         for i, a in enumerate(call.args):
@@ -404,10 +414,12 @@ def expand_delegation(p, fi, depth=2):
         gbody = copy.deepcopy(g.node.body)
         stored = {n.id for st in gbody for n in ast.walk(st) if isinstance(n, ast.Name) and isinstance(n.ctx, ast.Store)}
         pre = []
-        rename, subst = {}, {}
+        rename, subst, lambdas = {}, {}, {}
         for pn, a in bind.items():
             if isinstance(a, ast.Name):
                 rename[pn] = a.id
+            elif pn not in stored and isinstance(a, ast.Lambda) and not a.args.defaults and not a.args.kwonlyargs:
+                lambdas[pn] = a
             elif pn not in stored and isinstance(a, (ast.Attribute, ast.Constant)):
                 subst[pn] = a
             else:
@@ -423,6 +435,22 @@ def expand_delegation(p, fi, depth=2):
                     pre.append(ast.copy_location(ast.Assign(targets=[ast.Name(id=a.arg, ctx=ast.Store())], value=copy.deepcopy(dflt)), call))
 
         class S(ast.NodeTransformer):
+            def visit_Call(self, n):
+                self.generic_visit(n)
+                # a lambda handed to the helper is applied where the helper calls it
+                if isinstance(n.func, ast.Name) and n.func.id in lambdas and not n.keywords \
+                        and len(n.args) == len(lambdas[n.func.id].args.args):
+                    lam = lambdas[n.func.id]
+                    m_ = {pa.arg: av for pa, av in zip(lam.args.args, n.args)}
+
+                    class L(ast.NodeTransformer):
+                        def visit_Name(self, x):
+                            if x.id in m_ and isinstance(x.ctx, ast.Load):
+                                return copy.deepcopy(m_[x.id])
+                            return x
+                    return L().visit(copy.deepcopy(lam.body))
+                return n
+
             def visit_Name(self, n):
                 if n.id in rename:
                     n.id = rename[n.id]
